@@ -41,6 +41,18 @@ binding:  (a) spec -> code: every terminal behaviour of the closed model (CASE l
               list and the final file-system state are validated by TLC (spec/TraceUpdateFile.tla).
               A trace rejected with its events is re-validated on the verdict observables alone:
               only that rejection is a violation, a step-order mismatch is spec drift.
+sizes:    (notes/SIZE_STRESS.md) the abstract cases do not change, the concretization has a size
+          dimension in both legs.  Replay leg: every k-th behaviour also gets a size-stressed
+          concretization (files of exactly 8 KiB / 64 KiB +-1, 100-4097 lines, identical lines, line
+          lengths in boundary neighbourhoods up to 8193 / 65537, patch names of 1..250 characters,
+          index size columns zero-filled to 9-12 digits, RLIMIT at byte 4096 / 8192 / 65536 +-1, the
+          n-th write for a large n; a few around 1 MiB).  The abstract number of writes nw then
+          counts DISTINGUISHED writes (first, ..., last or failing): the recorder reports only those,
+          TLC's expectation is length-independent by construction.  Trace leg: a handful of big
+          cases per run (c19_repo.BIG_MENU: 16 MiB / 100000 lines full download, one line of 1 MiB,
+          100000 identical lines, 65536-character lines, histories of 200 / 50 / 12 / 10 versions
+          with patch chains of 199 / 29 / 11 / 9 patches and an index of 199 entries, two calls on
+          a 1 MiB file) recorded with the same abstraction and validated by TLC.
 domain:   D6 (unusable index = absent, empty, or rejected by the PackageFile grammar), D7 (no line
           that is exactly '.'); texts are newline-terminated lines without '\\r'.
 """
@@ -55,7 +67,7 @@ import c19_repo as R
 
 MANIFEST = dict(
     technique="TLA+ spec UpdateFile (one action per step of update_file/download_file/replace_file over the file-system variables local and local+'.new', one fault per behaviour) model-checked by TLC in a closed configuration; every terminal behaviour replayed into the real function on generated file:// repositories with injected faults (wrapped open/rename and RLIMIT_FSIZE); recorded executions validated by TLC (TraceUpdateFile)",
-    text="TLC explores every call of update_file over all histories of at most 4 published versions (content ids, repeats allowed) x how far back the index reaches x local copy absent / at any version / current / foreign x one fault (each patch corrupted or truncated, last patch consistent with the index but producing a wrong result, wrong Current hash, index missing / garbage / empty, open, k-th write, close or rename failing) and checks in every state that the local file is the old or the new content, that a returned call left and returned the current content, that a raised call left the local file untouched and no '.new', that exactly the reached hash and write faults raise, and that every call terminates. A second configuration lets the repository move on after the first call (a version appended under the same URL, under another URL, or another repository) and runs a second call in the same process from the file system the first one left, with the same invariants per call and a fault in either call. Each terminal behaviour, with TLC's terminal state as expectation, is concretized (texts, ed scripts from an independent differ, gzip files, Index in SHA1/SHA256 flavours, field order, padding) and replayed into the real function, write faults both through a wrapped open()/os.rename and implementation-agnostically through RLIMIT_FSIZE in a forked child; two-call behaviours run in one Python process on the same local path with the repository rewritten in between. In the other direction random histories of up to 8 versions and 30 lines with a random fault (half of them followed by a second call after the repository moved on) are executed with a recorder on the file-system and download calls and TLC must explain the observed step sequence and final state with the specification's actions.",
+    text="TLC explores every call of update_file over all histories of at most 4 published versions (content ids, repeats allowed) x how far back the index reaches x local copy absent / at any version / current / foreign x one fault (each patch corrupted or truncated, last patch consistent with the index but producing a wrong result, wrong Current hash, index missing / garbage / empty, open, k-th write, close or rename failing) and checks in every state that the local file is the old or the new content, that a returned call left and returned the current content, that a raised call left the local file untouched and no '.new', that exactly the reached hash and write faults raise, and that every call terminates. A second configuration lets the repository move on after the first call (a version appended under the same URL, under another URL, or another repository) and runs a second call in the same process from the file system the first one left, with the same invariants per call and a fault in either call. Each terminal behaviour, with TLC's terminal state as expectation, is concretized (texts, ed scripts from an independent differ, gzip files, Index in SHA1/SHA256 flavours, field order, padding) and replayed into the real function, write faults both through a wrapped open()/os.rename and implementation-agnostically through RLIMIT_FSIZE in a forked child; two-call behaviours run in one Python process on the same local path with the repository rewritten in between. Every k-th behaviour is additionally replayed in a size-stressed concretization (files of exactly 8 KiB / 64 KiB, thousands of lines, identical lines, boundary line lengths up to 65537, patch names of 1-250 characters, 9-12 digit size columns, write faults at byte 4096 / 8192 / 65536 and at the n-th write for large n); the model's number of writes then counts distinguished writes, so TLC's expectation is length-independent. In the other direction a handful of big cases per run (16 MiB / 100000-line full download, a 1 MiB line, 200-version history with a chain of 199 patches, ...) and random histories of up to 8 versions and 30 lines with a random fault (half of them followed by a second call after the repository moved on) are executed with a recorder on the file-system and download calls and TLC must explain the observed step sequence and final state with the specification's actions.",
     note="Small-scope for the exhaustive part (<= 4 versions, 0-3 write calls); texts are sampled. Verdict observables: outcome, local file bytes, returned lines, '.new' after an error; step order, exception types, '.new' after success and left-over download temp files are diagnostics (spec_drift). Unspecified and not generated: indexes that parse but have a wrong column count or name unknown patches (D6), lines that are exactly '.', '\\r', non-UTF-8 local files, missing patch files. Write faults injected through wrappers count only when the wrapper fired (else skipped; > 5 % skipped is a machinery failure). The two-call model is small (<= 3 versions, one write, at most one faulty call); the quick tier replays a seeded stratified sample of its behaviours. Spec-level negative controls (five, incl. RememberIndex: index of the first call re-used by the second; two of them in the quick tier) and corrupted control traces (incl. a stale second call) are required to fail in every run.",
     design="5 (C19)")
 
@@ -189,6 +201,14 @@ def validate(ctx, traces, with_controls=True):
     return bad, drift, info
 
 
+def short_in(i):
+    """input record with a long history abbreviated (messages)"""
+    h = i["hist"]
+    if len(h) > 12:
+        i = dict(i, hist="%r..%r (%d versions, %d distinct)" % (h[:3], h[-2:], len(h), len(set(h))))
+    return i
+
+
 def stuck_at(n):
     return "call %d, after %d specification steps" % (n // 1000 + 1, n % 1000)
 
@@ -272,7 +292,12 @@ def _run(ctx, quick, flavs, pool):
     if not cases2 or any(c.get("prev", {}).get("pc", "none") == "none" for c in cases2):
         raise core.MachineryError("UpdateFile (Runs = 2) emitted no / malformed two-call CASE lines")
     phase["emission"] = round(time.time() - t0, 1)
+    # size stress, trace leg: the handful of really big / long cases go to the pool first
+    topts = {"flavour_sets": flavs, "diff_e": not quick}
+    bigs = [("big", w, 0) for w in R.BIG_MENU[:10]] if quick else [("big", w, j) for w in R.BIG_MENU for j in range(3)]
+    big_async = pool.map_async(R.record_chunk, [(ctx.work, ctx.seed, [b], topts) for b in bigs], chunksize=1)
     nvar = 1 if quick else (2 if len(cases) < 20000 else 1)
+    every, every_heavy = (20, 2000) if quick else (10, 500)
     tasks = []
     for idx, c in enumerate(cases):
         if quick:       # every behaviour once, plainest and sampled concretization alternating
@@ -284,12 +309,15 @@ def _run(ctx, quick, flavs, pool):
         f = c["in"]["fault"]
         if f["k"] == "writeFails" and 1 <= f["i"] <= c["in"]["nw"]:
             vs.append("rlimit")
+        if (idx + ctx.seed) % every == 3:            # size stress, replay leg: every k-th behaviour
+            vs.append("stress")
+        if (idx + ctx.seed) % every_heavy == 7:
+            vs.append("stress-heavy")
         tasks += [(idx, c, v) for v in vs]
     opts = {"maxlen": 6, "diff_e": not quick}
     chunks = [tasks[i:i + 40] for i in range(0, len(tasks), 40)]
     replay_async = pool.map_async(R.replay_chunk, [(ctx.work, ctx.seed, ch, opts) for ch in chunks], chunksize=1)
     ntr = 300 if quick else 3000
-    topts = {"flavour_sets": flavs, "diff_e": not quick}
     tchunks = [list(range(i, min(ntr, i + 25))) for i in range(0, ntr, 25)]
     trace_async = pool.map_async(R.record_chunk, [(ctx.work, ctx.seed, ch, topts) for ch in tchunks], chunksize=1)
 
@@ -301,6 +329,8 @@ def _run(ctx, quick, flavs, pool):
     tasks2 = []
     for j, i in enumerate(picked):
         tasks2.append(("two-%d" % i, cases2[i], "canonical" if (quick and j % 3 == 0) else "random0"))
+        if j % 10 == 5:
+            tasks2.append(("two-%d" % i, cases2[i], "stress"))
         if not quick:
             tasks2.append(("two-%d" % i, cases2[i], "canonical"))
     chunks2 = [tasks2[i:i + 30] for i in range(0, len(tasks2), 30)]
@@ -406,6 +436,9 @@ def _run(ctx, quick, flavs, pool):
     # 4. code -> spec: recorded executions validated by TLC
     traces = [t for ch in trace_async.get() for t in ch]
     traces.sort(key=lambda x: x[0])
+    big_traces = [t for ch in big_async.get() for t in ch]
+    big_traces.sort(key=lambda x: x[0])
+    traces += big_traces
     idxs = [i for i, _ in traces]
     traces = [t for _, t in traces]
     phase["wait_for_traces"] = round(time.time() - t2, 1)
@@ -417,14 +450,18 @@ def _run(ctx, quick, flavs, pool):
         ctx.case_seen(("trace", idxs[i]), True)
 
     def brief(t):
-        return [{"in": r["in"], "events": [(e["a"], e["i"]) for e in r["events"]][:12], "out": r["out"]} for r in t["runs"]]
+        return [{"in": short_in(r["in"]), "events": [(e["a"], e["i"]) for e in r["events"]][:12], "out": r["out"]} for r in t["runs"]]
     for t in traces:
         if len(t["runs"]) == 2 and t["runs"][0]["events"] and any(r["in"]["fault"]["k"] != "none" for r in t["runs"]):
             ctx.sample("recorded trace (two calls): " + json.dumps(brief(t), separators=(",", ":")))
             break
+    ctx.extra["size_stress_cases"] = [{"case": t["big"], "calls": t["sizes"]} for _, t in big_traces]
+    for _, t in big_traces[:2]:
+        ctx.sample("size stress %s: %s -> %s" % (t["big"], json.dumps(t["sizes"], separators=(",", ":")),
+                                                 json.dumps([r["out"] for r in t["runs"]], separators=(",", ":"))))
     for i in drift[:3]:
         t = traces[i - 1]
-        ctx.drift("trace %d: step order not explained by the model (verdict observables are): %s"
+        ctx.drift("trace %s: step order not explained by the model (verdict observables are): %s"
                   % (idxs[i - 1], json.dumps(brief(t), separators=(",", ":"))[:1500]))
     allruns = [r for t in traces for r in t["runs"]]
     if any(r.get("new_after_success") for r in allruns):
@@ -435,15 +472,21 @@ def _run(ctx, quick, flavs, pool):
         t = traces[i - 1]
         if all(r["inject"] != "wrap" or not r["fired"] or (r["out"]["pc"] == "raised" and r["same"] and r["out"]["dotNew"] == "absent")
                for r in t["runs"]) and any(r["inject"] == "wrap" and r["fired"] for r in t["runs"]) and len(t["runs"]) == 1:
-            ctx.drift("trace %d: injected fault fired where the model does not write; error raised with the local file intact" % idxs[i - 1])
+            ctx.drift("trace %s: injected fault fired where the model does not write; error raised with the local file intact" % idxs[i - 1])
             continue
         if len(ctx.violations) >= 5:
             break
-        sc = R.record_one(ctx.work, ctx.seed, idxs[i - 1], {"flavour_sets": flavs, "diff_e": not quick})[1]
-        ctx.violation({"kind": "trace", "scenario": sc, "trace": slim(t)},
+        if isinstance(idxs[i - 1], tuple):      # a big case is regenerated from its recipe on replay
+            cased = {"kind": "trace-big", "seed": ctx.seed, "which": idxs[i - 1][1], "rep": idxs[i - 1][2],
+                     "sizes": t["sizes"], "trace": slim(t) if sum(len(r["in"]["hist"]) for r in t["runs"]) < 60 else None}
+        else:
+            sc = R.record_one(ctx.work, ctx.seed, idxs[i - 1], topts)[1]
+            cased = {"kind": "trace", "scenario": sc, "trace": slim(t)}
+        ctx.violation(cased,
+                      ("size stress case %s %s: " % (t["big"], json.dumps(t["sizes"], separators=(",", ":"))) if "big" in t else "") +
                       "recorded execution not explained by UpdateFile (specification stuck at %s): %s"
                       % (stuck_at(info.get(i, 0)),
-                         json.dumps([{"in": r["in"], "out": r["out"]} for r in t["runs"]], separators=(",", ":"))))
+                         json.dumps([{"in": short_in(r["in"]), "out": r["out"]} for r in t["runs"]], separators=(",", ":"))))
     ctx.extra["traces_recorded"] = len(traces)
     ctx.extra["traces_with_two_calls"] = sum(1 for t in traces if len(t["runs"]) == 2)
     ctx.extra["traces_rejected"] = len(bad)
@@ -459,14 +502,17 @@ def _run(ctx, quick, flavs, pool):
 
 def replay(ctx, case):
     flavour_sets(ctx)
-    msc = case["scenario"]
+    msc = case.get("scenario")
     if case["kind"] == "behaviour":
         res = R.judge_multi(msc, R.split_case(case["case"]), R.run_multi(ctx.work, msc))
         if res["status"] == "violation":
             return res["msg"]
         return None
-    if case["kind"] == "trace":
-        t = R.trace_multi(ctx.work, msc)
+    if case["kind"] in ("trace", "trace-big"):
+        if case["kind"] == "trace-big":
+            t = R.record_big(ctx.work, case["seed"], case["which"], case["rep"])[0]
+        else:
+            t = R.trace_multi(ctx.work, msc)
         bad, _, info = validate(ctx, [t], with_controls=False)
         if bad:
             return ("recorded execution still not explained by UpdateFile (stuck at %s): %s"
